@@ -4,7 +4,7 @@
    and input list.  "Matched" is what the match oracle (CPython re.match, recorded per run) says. *)
 From Coq Require Import ZArith List Bool.
 From Tdda Require Import Base.Sexp Base.Str Rexpy.Chars Rexpy.Pipeline Rexpy.PipelineProofs Rexpy.Sem
-     Rexpy.OracleCheck Rexpy.RefineProofs Rexpy.BatchProofs.
+     Rexpy.OracleCheck Rexpy.RefineProofs Rexpy.BatchProofs Rexpy.LoopProofs.
 Import ListNotations.
 Open Scope Z_scope.
 
@@ -71,6 +71,22 @@ Print Assumptions C03_refine_covers.
 Theorem C03_interpreter_tables_ok : table_ok py_chartab.
 Proof. exact py_table_ok. Qed.
 Print Assumptions C03_interpreter_tables_ok.
+
+(* The extraction loop (Extractor.extract: sampled attempts, then unsampled passes until a check adds nothing) always
+   ends: for every input, option set and oracle, the model's bound on the number of passes -
+   max_sampled_attempts + number of stored strings + 2 - is never what stops a run.  (Each unsampled pass that
+   does not stop adds a stored string that the working examples did not have.) *)
+Theorem C03_loop_terminates : forall ct o gt mt samples items, run_extractor ct o gt mt samples items <> Err E_FUEL.
+Proof. exact run_extractor_fuel. Qed.
+Print Assumptions C03_loop_terminates.
+
+(* ... and when it ends, every stored string that the last check found unmatched is one of the working examples
+   (no string outside the working set is left unmatched; C03_batch_covers is about the working set itself) *)
+Theorem C03_last_failures_are_working_examples : forall ct o gt mt samples items lo,
+  run_extractor ct o gt mt samples items = Ok lo ->
+  forall s, In s (lo_last_failures lo) -> In s (ex_strings (lo_examples lo)).
+Proof. exact run_extractor_last_failures. Qed.
+Print Assumptions C03_last_failures_are_working_examples.
 
 (* the bracket for the punctuation set {^, -} no longer starts with a bare caret (the [^-] defect) *)
 Example C03_escaped_bracket_caret : escaped_bracket false [94; 45] = [91; 92; 94; 45; 93].
